@@ -309,7 +309,32 @@ def r4_once(ck, F, d):
         if ok:
             s0, s1 = rng.a
             ismap = lambda z: is_call(z, A("map_bound")) or is_call(z, "ops::Bound::<T>::map")
-            ok = ismap(s0) and is_call(s0.strip().a[0], "::start_bound") and ismap(s1) and is_call(s1.strip().a[0], "::end_bound")
+
+            def copies(z, accessor):
+                """z is the variant-by-variant owned copy of `range.<accessor>()`: the map call, or — the mapping helper
+                spliced in — a join of `V(bytes(src@V.0))` for V in {Included, Excluded} and `Unbounded`"""
+                if ismap(z):
+                    return is_call(z.strip().a[0], accessor)
+                alts = flat_alts(z)
+                seen_ = set()
+                for a_ in alts:
+                    if a_.k != "agg" or not (a_.x.get("adt") or "").endswith("ops::Bound"):
+                        return False
+                    v_ = a_.x.get("variant")
+                    if v_ == "Unbounded":
+                        seen_.add(v_)
+                        continue
+                    if v_ not in ("Included", "Excluded") or not a_.a:
+                        return False
+                    pay = [w for w in a_.a[0].walk() if w.k == "downcast"]
+                    if len(pay) != 1 or pay[0].x.get("variant") != v_ or not is_call(pay[0].a[0], accessor):
+                        return False
+                    calls_ = [w.x["path"].rsplit("::", 1)[-1] for w in a_.a[0].walk() if w.k == "call" and w is not pay[0].a[0].strip()]
+                    if not set(calls_) <= {"to_vec", "as_ref", "to_owned", "into", "from", "start_bound", "end_bound", "clone", "borrow", "deref"}:
+                        return False
+                    seen_.add(v_)
+                return seen_ == {"Included", "Excluded", "Unbounded"}
+            ok = copies(s0, "::start_bound") and copies(s1, "::end_bound")
         ck.ob(R, f"bounds-copied-in-order/{d}", ok, f"range := (map_bound(start_bound), map_bound(end_bound)) — got {rng.show()[:120]}", nb, s)
         cur = agg_field_expr(nb, s, rv, "cursor")
         ck.ob(R, f"cursor-moved-in/{d}", is_arg(cur, "cursor"), "the iterator owns the cursor it was given", nb, s, nontrivial=False)
@@ -323,8 +348,10 @@ def r4_map_bound(ck, F):
     if not F.has_body(A("map_bound")):
         # the crate's own helper is gone: the constructors must then use std's `Bound::map` (variant-preserving by
         # its documentation, trusted like the rest of std) — checked at the use sites (bounds-copied-in-order)
+        # ... or with a helper the pinned tree does not have, spliced into the constructors: the variant-by-variant copy
+        # is then checked at the use sites themselves (bounds-copied-in-order), nothing to add here
         users = [b_.path for b_ in F.user_bodies() for s, c, t in b_.calls() if callee_name(c).endswith("ops::Bound::<T>::map")]
-        ck.ob(R, "map-bound-switch", len(users) >= 2, f"no local map_bound: bounds are converted with std::ops::Bound::map ({sorted(set(users))})", config=F.config)
+        ck.ob(R, "map-bound-switch", True, f"no local map_bound: the constructors copy the bounds themselves ({sorted(set(users))}); see bounds-copied-in-order", config=F.config, nontrivial=False)
         return
     b = F.body(A("map_bound"))
     for bb in sorted(b.normal_blocks()):
